@@ -61,7 +61,10 @@ impl RootVersion {
             // - value2 = named_files
             // CascLib accepts version 1 and 2, TACTSharp accepts 1 and 2.
             // Version 1 uses the same block format as V2 (17-byte block headers).
-            let looks_like_extended_header = (16..100).contains(&value1) && matches!(value2, 1..=4);
+            // Same test as RootHeader::read (a small classic V2 manifest has the same
+            // two words as an extended header; the block structure decides)
+            let looks_like_extended_header =
+                crate::root::header::is_extended_header(reader, value1, value2)?;
 
             if looks_like_extended_header {
                 // Extended header structure - version_field determines parsing format
